@@ -303,7 +303,9 @@ impl Work {
 
 impl Drop for Work {
     fn drop(&mut self) {
-        rm_rf(&self.base);
+        if std::env::var_os("GSIM_KEEP").is_none() {
+            rm_rf(&self.base);
+        }
     }
 }
 
